@@ -6,9 +6,104 @@
 (* the requirement machine ClassModel, which recomputes Exposed(c) from its *)
 (* own abstract forest.  All clauses violated in a trace are delivered by   *)
 (* the final "End" event (tagged with the index of their event).            *)
-EXTENDS ClassModel, Json, IOUtils
+(*                                                                         *)
+(* The code-shaped machine (ClassModelImplOps, switches = the code as it    *)
+(* is, see ClassModelTrace.cfg) is followed in lock step: the first event   *)
+(* where the real result differs from it is printed as drift (<<"D",..>>),  *)
+(* which is never a violation; it says whether the exhaustive TLC results   *)
+(* about the code-shaped machine transfer to the code.                      *)
+EXTENDS ClassModelImplOps, Json, IOUtils
 
 VARIABLES tid, l, verdict, ts, ti, drifted
+
+E_NOT_FOUND == 6
+E_ALREADY_EXISTS == 11
+
+(* fields of a returned class that the code-shaped machine predicts *)
+CmpClass(x, r) ==
+  F1("class.name", x.name = r.name)
+  \cup F1("class.super", x.super = r.super)
+  \cup F1("class.qualifiers", x.cq = r.cq)
+  \cup UNION {LET a == x.el[e]
+                  b == r.el[e] IN
+              F1("element." \o e,
+                 /\ a.present = b.present
+                 /\ a.present => /\ a.ver = b.ver /\ a.origin = b.origin
+                                 /\ a.prop = b.prop /\ a.quals = b.quals
+                                 /\ a.hasx = b.hasx /\ a.xquals = b.xquals)
+              : e \in Elems}
+
+Busy(i, c) == IF ImplChildren(i.store, c) # {} THEN E_CLASS_HAS_CHILDREN
+              ELSE IF \E x \in i.ii : x[1] = c THEN E_CLASS_HAS_INSTANCES
+              ELSE 0
+
+ImplMutate(i, e) ==      \* Create / Modify / Compile
+  LET exists == e.name \in DOMAIN i.store
+      asModify == e.op = "Modify" \/ (e.op = "Compile" /\ exists)
+      r == IF asModify
+           THEN IF ~exists THEN RErr(E_NOT_FOUND)
+                ELSE IF Busy(i, e.name) # 0 THEN RErr(Busy(i, e.name))
+                ELSE ImplResolve(i.store, e.name, i.store[e.name].super,
+                                 e.d, e.via)
+           ELSE IF exists THEN RErr(E_ALREADY_EXISTS)
+                ELSE ImplResolve(i.store, e.name, e.super, e.d, e.via) IN
+  << F1(e.op \o ".outcome", r.ok = e.ok)
+     \cup F1(e.op \o ".code",
+             r.ok \/ e.ok \/ e.via # "api" \/ r.code = e.code),
+     IF r.ok THEN [i EXCEPT !.store = (e.name :> r.cls) @@
+                              [x \in (DOMAIN i.store) \ {e.name} |-> i.store[x]]]
+     ELSE i >>
+
+ImplStep(i, e) ==
+  CASE e.op \in {"Create", "Modify", "Compile"} -> ImplMutate(i, e)
+    [] e.op = "Get" ->
+         << IF e.name \notin DOMAIN i.store THEN F1("Get.outcome", ~e.ok)
+            ELSE IF ~e.ok THEN {"Get.outcome"}
+            ELSE {"Get." \o x : x \in
+                    CmpClass(ImplGet(i.store, e.name, e.lo, e.iq, e.ico,
+                                     e.hp, e.pl), e.cls)}, i >>
+    [] e.op = "EnumClassNames" ->
+         << IF e.name # "" /\ e.name \notin DOMAIN i.store
+            THEN F1("EnumClassNames.outcome", ~e.ok)
+            ELSE F1("EnumClassNames.names",
+                    e.ok /\ Rng(e.names) = ImplSubNames(i.store, e.name, e.deep)
+                    /\ Len(e.names) = Cardinality(Rng(e.names))), i >>
+    [] e.op = "EnumClasses" ->
+         << IF e.name # "" /\ e.name \notin DOMAIN i.store
+            THEN F1("EnumClasses.outcome", ~e.ok)
+            ELSE IF ~e.ok THEN {"EnumClasses.outcome"}
+            ELSE F1("EnumClasses.names",
+                    {e.classes[k].name : k \in DOMAIN e.classes} =
+                       ImplSubNames(i.store, e.name, e.deep))
+                 \cup UNION {LET r == e.classes[k] IN
+                             IF r.name \notin DOMAIN i.store THEN {}
+                             ELSE {"EnumClasses." \o x : x \in
+                                     CmpClass(ImplGet(i.store, r.name, e.lo,
+                                                      e.iq, "N", FALSE, <<>>),
+                                              r)}
+                             : k \in DOMAIN e.classes}, i >>
+    [] e.op \in {"EnumInst", "EnumInstNames"} ->
+         << IF e.name \notin DOMAIN i.store THEN F1(e.op \o ".outcome", ~e.ok)
+            ELSE F1(e.op \o ".instances",
+                    e.ok /\ Rng(e.insts) =
+                       {x \in i.ii : x[1] \in ImplDesc(i.store, e.name)
+                                                 \cup {e.name}}
+                    /\ Len(e.insts) = Cardinality(Rng(e.insts))), i >>
+    [] e.op = "CreateInst" ->
+         LET can == e.name \in DOMAIN i.store /\ <<e.name, e.key>> \notin i.ii IN
+         << F1("CreateInst.outcome", can = e.ok),
+            IF can THEN [i EXCEPT !.ii = @ \cup {<<e.name, e.key>>}] ELSE i >>
+    [] e.op = "Delete" ->
+         IF e.name \notin DOMAIN i.store
+         THEN << F1("Delete.outcome", ~e.ok), i >>
+         ELSE LET gone == ImplDesc(i.store, e.name) \cup {e.name}
+                  st2 == [x \in (DOMAIN i.store) \ gone |-> i.store[x]]
+                  ii2 == {x \in i.ii : x[1] \notin gone} IN
+              << F1("Delete.outcome", e.ok)
+                 \cup F1("Delete.classes", Rng(e.after) = DOMAIN st2)
+                 \cup F1("Delete.instances", Rng(e.iafter) = ii2),
+                 [store |-> st2, ii |-> ii2] >>
+    [] OTHER -> << {}, i >>
 
 TraceBatch == JsonDeserialize(IOEnv.TRACE_FILE).traces
 
@@ -16,6 +111,6 @@ TK == INSTANCE TraceKit WITH
         TTraces <- TraceBatch,
         TInit0 <- InitState, TFails <- Fails, TApply <- Apply,
         TInv <- LAMBDA st : TRUE,
-        TImpl0 <- {}, TImplStep <- LAMBDA i, e : <<{}, i>>
+        TImpl0 <- [store |-> <<>>, ii |-> {}], TImplStep <- ImplStep
 TSpec == TK!TSpec
 =============================================================================
